@@ -1,6 +1,6 @@
 (* Decoder for the view written by tools/viewdump.py, encoder for the analyzer model's outcome. *)
 From Coq Require Import List Ascii String Bool Arith ZArith.
-From SV Require Import Lib.Str Lib.Sexp Model.Types Model.Api Model.FrontSmall Model.View Model.Front Driver.Codec Driver.ApiCodec.
+From SV Require Import Lib.Str Lib.Sexp Model.Types Model.Api Model.Back Model.Layout Model.FrontSmall Model.View Model.Front Model.Run Driver.Codec Driver.ApiCodec.
 Import ListNotations.
 
 Fixpoint mt_of_sx_f (fuel : nat) (x : sexp) : option mtype :=
@@ -396,4 +396,15 @@ Definition run_front (x : sexp) : sexp :=
   match view_of_sx x with
   | Some v => sx_of_outcome (front v)
   | None => L [T"bad-view"]
+  end.
+
+(* the whole pipeline on a view: same answer format as the `back` command, preceded by the order-dependence flag of the analyzer *)
+Definition run_pipeline (nc : sexp) (x : sexp) : sexp :=
+  match sx_bool nc, view_of_sx x with
+  | Some nc', Some v =>
+    match run v nc' [] with
+    | Err e => L [T"err"; sx_of_err e]
+    | Ok o => L [T"ok"; of_bool (out_amb o); sx_of_back (Ok (out_data o, out_gst o, out_files o))]
+    end
+  | _, _ => L [T"bad-view"]
   end.
